@@ -78,17 +78,21 @@ def o1(prog: Program, chk: Check) -> None:
             continue
         it = nd.ast.iter
         srcs = set()
-        if isinstance(it, ast.Name):
-            for d in du.reaching(nd.id, it.id):
-                if d.value is not None:
-                    srcs.add(norm(d.value))
-        if srcs and all(s.startswith("self._single_site_controls") for s in srcs):
-            chk.add("O1", get, f"for {norm(nd.ast.target)} in {norm(it)}", True,
-                    "forward iteration over the insertion-ordered list", nd.ast)
-        elif any("_single_site_controls" in norm(x) for x in walk_local(it)) or \
-                any("_single_site_controls" in s for s in srcs):
-            chk.add("O1", get, f"for {norm(nd.ast.target)} in {norm(it)}", False,
-                    "stacked controls are not visited in insertion order", nd.ast)
+        for x in walk_local(it):
+            if isinstance(x, ast.Name) and isinstance(x.ctx, ast.Load):
+                for d in du.reaching(nd.id, x.id):
+                    if d.value is not None:
+                        srcs.add(norm(d.value))
+            elif isinstance(x, ast.Attribute):
+                srcs.add(norm(x))
+        over_lists = any(s.startswith("self._single_site_controls") for s in srcs)
+        if not over_lists:
+            continue
+        forward = isinstance(it, ast.Name)
+        chk.add("O1", get, f"for {norm(nd.ast.target)} in {norm(it)}", forward,
+                "forward iteration over the insertion-ordered list" if forward else
+                "stacked controls are not visited in insertion order (only a plain forward "
+                "iteration over the list is recognised)", nd.ast)
 
 
 # --------------------------------------------------------------------- O2
